@@ -547,11 +547,19 @@ Qed.
 Lemma commute_spec m l l' i j : commute m l l' = true -> app m i = Some j -> nthb l i = nthb l' j.
 Proof. intros H E. apply Bool.eqb_prop. exact (forall_map_spec _ _ H _ _ E). Qed.
 
+Lemma commute_on_spec mask m l l' i j : commute_on mask m l l' = true -> app m i = Some j ->
+  nthb mask i = true -> nthb l i = nthb l' j.
+Proof.
+  intros H E M. pose proof (forall_map_spec _ _ H _ _ E) as G. cbn beta in G. rewrite M in G.
+  apply Bool.eqb_prop. exact G.
+Qed.
+
 (* IsType: the row of the tested type, read at the value's tag, says the same on both sides *)
 Lemma istype_agree v v' y y' w : vrel v v' -> app (r_y rho) y = Some y' -> row_of X y = Some w ->
+  tag_typed X v ->
   istype_verdict X v y = istype_verdict X' v' y'.
 Proof.
-  intros Hv Hy Hw. pose proof (F_row FX _ _ Hy) as H. unfold chk_row in H. rewrite Hw in H.
+  intros Hv Hy Hw Ht. pose proof (F_row FX _ _ Hy) as H. unfold chk_row in H. rewrite Hw in H.
   unfold istype_verdict. rewrite Hw. destruct (row_of X' y') as [w'|]; [|discriminate].
   unfold rows_commute in H.
   apply andb_true_iff in H as [H Hres]. apply andb_true_iff in H as [H Hprocs].
@@ -560,7 +568,7 @@ Proof.
   apply andb_true_iff in H as [Hint Hbin].
   apply Bool.eqb_prop in Hint. apply Bool.eqb_prop in Hbin. apply Bool.eqb_prop in Href.
   inversion Hv; subst; cbn [tag_in]; try assumption.
-  - eapply commute_spec; eauto.
+  - eapply commute_on_spec; eauto.
   - eapply commute_spec; eauto.
   - eapply commute_spec; eauto.
   - eapply commute_spec; eauto.
@@ -696,10 +704,10 @@ Proof.
   fold P. fold P'. rewrite Hc, Hc', <- Hpc. apply Forall2_nth. exact Hcode.
 Qed.
 
-Lemma decide_rel beq s s' x x' : srel s s' -> orel (x_value x) (x_value x') ->
+Lemma decide_rel beq s s' x x' : srel s s' -> orel (x_value x) (x_value x') -> tested_typed X s ->
   xrel (decide X beq s x) (decide X' beq s' x').
 Proof.
-  intros HS Hxv. pose proof (top_instr_rel _ _ HS) as Hi. unfold decide.
+  intros HS Hxv HT. pose proof (top_instr_rel _ _ HS) as Hi. unfold decide. unfold tested_typed in HT.
   destruct (top_instr (project X) s) as [i|], (top_instr (project X') s') as [i'|]; try contradiction.
   2: { split; [exact Hxv | reflexivity]. }
   apply instr_ok_inv in Hi. destruct HS as [Hst _ _ _].
@@ -709,6 +717,7 @@ Proof.
   - (* IsType *)
     destruct Hi as (y' & Hy & -> & w & Hw).
     inversion Hst as [|v v' sp sq Hv Hsp E1 E2]; [split; [exact Hxv | reflexivity]|].
+    rewrite <- E1 in HT.
     split; [exact Hxv|]. cbn [x_bool]. eapply istype_agree; eauto.
   - (* Equal *)
     subst i'.
@@ -719,17 +728,18 @@ Proof.
 Qed.
 
 (* one step, verdicts computed from each program's own tables *)
-Lemma xstep_sim beq s s' x x' : srel s s' -> orel (x_value x) (x_value x') ->
+Lemma xstep_sim beq s s' x x' : srel s s' -> orel (x_value x) (x_value x') -> tested_typed X s ->
   rrel (xstep X beq s x) (xstep X' beq s' x').
-Proof. intros HS Hx. unfold xstep. apply step_sim; [exact HS | apply decide_rel; assumption]. Qed.
+Proof. intros HS Hx HT. unfold xstep. apply step_sim; [exact HS | apply decide_rel; assumption]. Qed.
 
 Definition xvrel (x x' : ext) : Prop := orel (x_value x) (x_value x').
 
-Lemma xrun_sim beq xs xs' : Forall2 xvrel xs xs' -> forall s s', srel s s' ->
+Lemma xrun_sim beq xs xs' : Forall2 xvrel xs xs' -> forall s s', srel s s' -> typed_run X beq s xs ->
   rrel (xrun X beq s xs) (xrun X' beq s' xs').
 Proof.
-  induction 1 as [|x x' xs xs' Hx Hxs IH]; intros s s' HS; cbn [xrun]; [exact HS|].
-  pose proof (xstep_sim beq _ _ _ _ HS Hx) as G.
+  induction 1 as [|x x' xs xs' Hx Hxs IH]; intros s s' HS HT; cbn [xrun]; [exact HS|].
+  cbn [typed_run] in HT. destruct HT as [HT1 HT2].
+  pose proof (xstep_sim beq _ _ _ _ HS Hx HT1) as G.
   destruct (xstep X beq s x) as [s1|v1 s1|f1], (xstep X' beq s' x') as [s2|v2 s2|f2]; try contradiction; auto.
 Qed.
 
@@ -784,11 +794,12 @@ Theorem renaming_simulation rho X X' : is_renaming rho X X' = true ->
   forall bin_eq f f' caps caps' arg arg' pers xs xs',
   app (r_f rho) f = Some f' -> Forall2 (vrel rho) caps caps' -> vrel rho arg arg' ->
   Forall2 (xvrel rho) xs xs' ->
+  typed_run X bin_eq (init_state f caps arg pers) xs ->
   rrel rho (xrun X bin_eq (init_state f caps arg pers) xs)
            (xrun X' bin_eq (init_state f' caps' arg' pers) xs').
 Proof.
-  intros HR beq f f' caps caps' arg arg' pers xs xs' Hf Hc Ha Hx.
-  apply (xrun_sim rho X X' HR beq xs xs' Hx). apply init_rel; assumption.
+  intros HR beq f f' caps caps' arg arg' pers xs xs' Hf Hc Ha Hx HT.
+  apply (xrun_sim rho X X' HR beq xs xs' Hx); [apply init_rel; assumption | exact HT].
 Qed.
 
 (* the same with every verdict an outside input (vm/Vm.v as it stands, vm/WfRun.v's `run`) *)
@@ -807,7 +818,7 @@ Qed.
 
 (* the side condition, stated on its own: on related values the real tables give the same verdicts *)
 Theorem verdicts_commute rho X X' : is_renaming rho X X' = true ->
-  (forall v v' y y' w, vrel rho v v' -> app (r_y rho) y = Some y' -> row_of X y = Some w ->
+  (forall v v' y y' w, vrel rho v v' -> app (r_y rho) y = Some y' -> row_of X y = Some w -> tag_typed X v ->
      istype_verdict X v y = istype_verdict X' v' y') /\
   (forall bin_eq vs vs', Forall2 (vrel rho) vs vs' -> equal_verdict X bin_eq vs = equal_verdict X' bin_eq vs').
 Proof.
@@ -1226,7 +1237,12 @@ Proof.
   - constructor.
   - constructor; [reflexivity | constructor].
   - repeat constructor.
+  - vm_compute. repeat split.
 Qed.
+
+(* the relaxation is exercised: OK has no Type::Tuple entry in exX, so its tag is not compared *)
+Example ex_ok_untyped : has_tuple_entry exX OK = false /\ has_tuple_entry exX 2 = true.
+Proof. split; reflexivity. Qed.
 
 (* --- value_reemit is not vacuous: a module value with a closure over an integer and a binary,
    inside a named tuple; emitted into a program that already holds one of the constants *)
